@@ -30,7 +30,9 @@
 EXTENDS Client, Integers, Json, IOUtils
 
 CONSTANTS MINB,      \* minimal back-off between two attempts of a retrier (ms), with slack
-          SLACK      \* slack of the bounded-time obligations (ms)
+          SLACK,     \* slack of the bounded-time obligations (ms)
+          CAP        \* more compatible states than this: the scenario is too ambiguous to be judged, the validator says
+                     \* so (tag VALIDATOR) and skips to the next scenario
 
 Rec == ndJsonDeserialize(IOEnv.TRACE)
 
@@ -54,7 +56,7 @@ Close(done, frontier, tm) ==
 
 \* the hidden steps between the previous event (time prev) and this one (time now) under configuration cfg
 TmOf(cfg, prev, now) ==
-    [minb |-> MINB, prev |-> prev, now |-> now, wake |-> 1000 * cfg.auto_retry]
+    [minb |-> MINB, prev |-> prev, now |-> now, wake |-> 1000 * cfg.auto_retry, tick |-> 900]
 
 -----------------------------------------------------------------------------
 (* projections                                                             *)
@@ -86,7 +88,7 @@ PropOfDev(d) == CASE d = "S12" -> "C05" [] d = "S13" -> "C13" [] d = "S14" -> "C
                   [] d = "S18" -> "C14" [] d = "S19" -> "C13" [] OTHER -> "C18"
 
 Mon0 == [name |-> "-", cfg |-> [max_retry |-> 3, auto_retry |-> 2, max_interval |-> 1],
-         devs |-> {}, flagged |-> {},
+         devs |-> {}, flagged |-> {}, skip |-> FALSE,
          since |-> [t \in Towers |-> 0],            \* last time something disturbed the delivery to t
          bad |-> [t \in Towers |-> {}],             \* why t does not count as well-behaved now
          downAt |-> [t \in Towers |-> -1],          \* t is down since (and the client had data for it since tuAt)
@@ -278,8 +280,10 @@ Holds(name, s) ==
 NeedsClosure(e) == e.ev \notin {"start", "boot", "mode", "abort", "end", "waited", "note", "skipped", "other_req"}
 
 Step ==
-    \E C \in {IF NeedsClosure(Ev) THEN Close({}, bel, TmOf(mon.cfg, mon.lastTs, Ev.ts)) ELSE bel} :
-    \E r \in {R(Ev, C)} :
+    \E C \in {IF NeedsClosure(Ev) /\ ~mon.skip THEN Close({}, bel, TmOf(mon.cfg, mon.lastTs, Ev.ts)) ELSE bel} :
+    \E r \in {IF mon.skip /\ Ev.ev # "start" THEN Res({}, {}, mon)
+              ELSE IF Cardinality(C) > CAP THEN Res({}, T("VALIDATOR", "too many compatible states"), [mon EXCEPT !.skip = TRUE])
+              ELSE R(Ev, C)} :
     \E B \in {r.bel} :
     \E newdev \in {IF B = {} THEN {} ELSE {d \in UNION {s.dev : s \in B} : \A s \in B : d \in s.dev} \ r.mon.devs} :
     \E viol \in {IF B = {} THEN {}
